@@ -15,6 +15,8 @@
 -/
 import Props.Lemmas.C01_Runner
 import Props.Lemmas.FlowGlobalRun
+import Props.Lemmas.FlowFuel
+import Props.Lemmas.C01_Oracle
 
 namespace Pypyr.C01
 open Pypyr Pypyr.Flow
@@ -24,8 +26,11 @@ open Pypyr Pypyr.Flow
 /-- **The defaulting rule of `_run_pipeline`, closed form, for all inputs**: explicit non-empty
     `groups` are kept together with whatever success/failure were (or were not) given; otherwise the
     group is `steps`, and `on_success`/`on_failure` are defaulted only when neither a success nor a
-    failure group was given; the list of groups to run is never empty. -/
-theorem effectiveGroups_spec (pi : PipeInst) :
+    failure group was given; the list of groups to run is never empty. (`groupsBad = false`: `groups`
+    is a list of names - possibly written as a string, whose characters are the names - or absent;
+    the remaining case, a truthy `groups` that cannot be iterated, is `effectiveGroups_not_iterable` /
+    `groups_not_iterable` below.) -/
+theorem effectiveGroups_spec (pi : PipeInst) (hgb : pi.groupsBad = false) :
     (∀ g gs, pi.groups = some (g :: gs) → effectiveGroups pi = (g :: gs, pi.success, pi.failure)) ∧
     (groupsGiven pi = false → nameGiven pi.success = false → nameGiven pi.failure = false →
         effectiveGroups pi = (["steps"], some "on_success", some "on_failure")) ∧
@@ -36,8 +41,14 @@ theorem effectiveGroups_spec (pi : PipeInst) :
       (if groupsGiven pi then (pi.groups.getD [], pi.success, pi.failure)
        else if !nameGiven pi.success && !nameGiven pi.failure then (["steps"], some "on_success", some "on_failure")
        else (["steps"], pi.success, pi.failure)) :=
-  ⟨effectiveGroups_given pi, effectiveGroups_default_all pi, effectiveGroups_default_groups_only pi,
-   effectiveGroups_nonempty pi, effectiveGroups_eq pi⟩
+  ⟨effectiveGroups_given pi hgb, effectiveGroups_default_all pi hgb, effectiveGroups_default_groups_only pi hgb,
+   effectiveGroups_nonempty pi hgb, effectiveGroups_eq pi hgb⟩
+
+/-- `groups` given as a truthy value that is no collection of names (`groups: 5` in a pype step, the
+    API called with `groups=5`): it counts as "given" - success / failure handlers are exactly the
+    ones passed, nothing is defaulted. -/
+theorem effectiveGroups_not_iterable (pi : PipeInst) (hgb : pi.groupsBad = true) :
+    effectiveGroups pi = ([], pi.success, pi.failure) := effectiveGroups_bad pi hgb
 
 /-! ## steps of a group: declaration order, fail fast -/
 
@@ -72,12 +83,12 @@ theorem runSteps_nonok_origin (prog : Program) (pipe : String) (ds : List StepDe
 /-- a step that ends in an error ends its step-group with that error: the rest of the group is skipped -/
 theorem failing_step_ends_group (prog : Program) (pipe g : String) (pre post : List StepDef) (d : StepDef)
     (fuel : Nat) (s s0 s1 : St) (e : ExcV) (h : Bool) (raiseStop : Bool)
-    (hg : groupSteps prog pipe g = pre ++ d :: post)
+    (hg : groupSteps prog pipe g = pre ++ d :: post) (hg0 : g ≠ "")
     (hpre : StepsChain prog pipe fuel pre s s0) (hlen : pre.length < fuel)
     (hd : runStep (fuel - pre.length - 1) prog pipe d s0 = (s1, .err e h)) :
     runStepGroup (fuel + 1) prog pipe g raiseStop s = (s1, .err e h) := by
   rw [runStepGroup_eq' fuel prog pipe g raiseStop s _
-      (getPipelineSteps_of_groupSteps prog pipe g _ (by simp) hg),
+      (getPipelineSteps_of_groupSteps prog pipe g _ (by simp) hg) hg0,
     runSteps_stops_at_first_nonok prog pipe pre post d fuel s s0 s1 _ hpre hlen hd (by simp)]
 
 /-! ## groups: in order, group after group, fail fast -/
@@ -103,6 +114,61 @@ theorem runGroupList_nonok_origin (prog : Program) (pipe : String) (gs : List St
       runStepGroup (fuel - pre.length - 1) prog pipe g false s0 = (s', r) := by
   rw [runGroupList_eq_seqRun] at h
   exact seqRun_nonok_origin _ gs fuel s s' r h hr hf
+
+/-! ## the same at ONE fuel: the budget plays no role
+
+`StepsChain` / `GroupsChain` above follow the interpreter's own fuel bookkeeping (element `i` runs with
+`fuel - i - 1`). By fuel monotonicity (`Props/Lemmas/FlowFuel.lean`: a computation that ends within a budget
+ends identically within every larger one) the same facts hold with every element run at one and the same
+fuel `F` (`StepsChainAt` / `GroupsChainAt`), for every total budget that is large enough. -/
+
+/-- **A run does not depend on the budget it is given**: if `Pipeline.run` ends (normally or with an error)
+    within fuel `n`, it ends in the same state with the same outcome within every `m ≥ n`. Every statement of
+    this file that names a fuel is therefore a statement about the one run of that pipeline. -/
+theorem run_is_fuel_independent (prog : Program) (pi : PipeInst) (n : Nat) (s s' : St) (r : Res)
+    (h : runRoot n prog pi s = (s', r)) (hr : r ≠ .outOfFuel) :
+    ∀ m, n ≤ m → runRoot m prog pi s = (s', r) :=
+  runRoot_fuel_mono prog pi n s s' r h hr
+
+/-- declaration order, at one fuel: the steps of `ds` end normally one after the other, each run with fuel
+    `F` ⇒ `run_pipeline_steps` over `ds` ends normally in the last step's state, for every budget above
+    `F + ds.length`. -/
+theorem steps_in_declaration_order_one_fuel (prog : Program) (pipe : String) (ds : List StepDef) (F : Nat)
+    (s s' : St) (h : StepsChainAt prog pipe F ds s s') :
+    ∀ N, F + ds.length < N → runSteps N prog pipe ds s = (s', .ok) := by
+  intro N hN
+  rw [runSteps_eq_seqRun]
+  exact seqRun_ok_at _ (fun d n m hnm => runStep_fuel_ext prog pipe d hnm) F ds s s' h N hN
+
+/-- fail fast, at one fuel: `pre` ended normally, `d` ends with `r` (not `ok`) - all at fuel `F`: the step
+    list `pre ++ d :: post` ends with exactly `(s1, r)` for every budget `N ≥ F + pre.length + 1`. -/
+theorem runSteps_stops_at_first_nonok_one_fuel (prog : Program) (pipe : String) (pre post : List StepDef)
+    (d : StepDef) (F : Nat) (s s0 s1 : St) (r : Res)
+    (hpre : StepsChainAt prog pipe F pre s s0) (hd : runStep F prog pipe d s0 = (s1, r))
+    (hr : r ≠ .ok) (hf : r ≠ .outOfFuel) :
+    ∀ N, F + pre.length + 1 ≤ N → runSteps N prog pipe (pre ++ d :: post) s = (s1, r) := by
+  intro N hN
+  rw [runSteps_eq_seqRun]
+  exact seqRun_first_nonok_at _ (fun d n m hnm => runStep_fuel_ext prog pipe d hnm) F pre post d s s0 s1 r
+    hpre hd hr hf N hN
+
+/-- the same for the loop over the requested groups. -/
+theorem groups_in_order_one_fuel (prog : Program) (pipe : String) (gs : List String) (F : Nat)
+    (s s' : St) (h : GroupsChainAt prog pipe F gs s s') :
+    ∀ N, F + gs.length < N → runGroupList N prog pipe gs s = (s', .ok) := by
+  intro N hN
+  rw [runGroupList_eq_seqRun]
+  exact seqRun_ok_at _ (fun g n m hnm => runStepGroup_fuel_ext prog pipe g false hnm) F gs s s' h N hN
+
+theorem runGroupList_stops_at_first_nonok_one_fuel (prog : Program) (pipe : String) (pre post : List String)
+    (g : String) (F : Nat) (s s0 s1 : St) (r : Res)
+    (hpre : GroupsChainAt prog pipe F pre s s0) (hg : runStepGroup F prog pipe g false s0 = (s1, r))
+    (hr : r ≠ .ok) (hf : r ≠ .outOfFuel) :
+    ∀ N, F + pre.length + 1 ≤ N → runGroupList N prog pipe (pre ++ g :: post) s = (s1, r) := by
+  intro N hN
+  rw [runGroupList_eq_seqRun]
+  exact seqRun_first_nonok_at _ (fun g n m hnm => runStepGroup_fuel_ext prog pipe g false hnm) F pre post g
+    s s0 s1 r hpre hg hr hf N hN
 
 /-! ## the success group: once, after all requested groups completed, and only then -/
 
@@ -202,7 +268,7 @@ theorem failure_group_error_is_swallowed (fuel : Nat) (prog : Program) (pipe nam
 theorem malformed_failure_group_is_swallowed (fuel : Nat) (prog : Program) (pipe name : String) (s : St)
     (n m : String) (hn : name ≠ "") (hg : getPipelineSteps prog pipe name = .error (n, m)) :
     runFailureGroup (fuel + 2) prog pipe (some name) s = ((raiseNew s n m).1, .ok) := by
-  rw [runFailureGroup_eq (fuel + 1) prog pipe name s hn, runStepGroup_unsized fuel prog pipe name true s n m hg]
+  rw [runFailureGroup_eq (fuel + 1) prog pipe name s hn, runStepGroup_unsized fuel prog pipe name true s n m hg hn]
   rfl
 
 /-- … hence with such a failure group the caller of `run_step_groups` still receives the original error
@@ -252,12 +318,106 @@ theorem mainPhase_err_origin (fuel : Nat) (prog : Program) (pipe : String) (grou
     subst h1 h2
     exact .inl (runGroupList_nonok_origin prog pipe groups fuel s s0 _ hl (by simp) (by simp))
 
+/-! ## the handler, counted on the observable trace -/
+
+/-- how many events of the probe trace carry tag `t` -/
+def countTag (t : String) (evs : List Event) : Nat := (evs.filter (·.tag == t)).length
+
+/-- **The failure group runs at most once per activation of `run_step_groups`, and not at all when the main
+    phase did not fail - read off the probe trace.** Let `t` be a tag no step of the main phase emits (`hmain`)
+    and of which one run of the failure group, from whatever state, emits exactly `k` events (`hhand`; `k = 1` for
+    the tag of a step the handler executes once - e.g. its first step). Then over the whole activation the
+    number of `t`-events grows by exactly `k` when the main phase ended in an error and a failure group is
+    named, and by `0` in every other case: normal completion, Stop / StopPipeline, no handler named. -/
+theorem handler_runs_once_on_trace (fuel : Nat) (prog : Program) (pipe : String) (g : String) (gs : List String)
+    (success failure : Option String) (s : St) (t : String) (k : Nat)
+    (hmain : countTag t (mainPhase fuel prog pipe (g :: gs) success s).1.trace = countTag t s.trace)
+    (hhand : ∀ s1, countTag t (runFailureGroup fuel prog pipe failure s1).1.trace = countTag t s1.trace + k) :
+    countTag t (runGroups (fuel + 1) prog pipe (g :: gs) success failure s).1.trace =
+      countTag t s.trace +
+        (if (mainPhase fuel prog pipe (g :: gs) success s).2.isErr && hasFailureGroup failure then k else 0) := by
+  rw [runGroups_char]
+  generalize mainPhase fuel prog pipe (g :: gs) success s = p at hmain
+  obtain ⟨s1, r⟩ := p
+  cases r with
+  | err e h =>
+    simp only [Res.isErr, Bool.true_and]
+    by_cases hf : hasFailureGroup failure = true
+    · simp only [hf, if_true]
+      have h1 := hhand s1
+      generalize runFailureGroup fuel prog pipe failure s1 = q at h1
+      obtain ⟨s2, r2⟩ := q
+      have : (handlerOutcome e h (s2, r2)).1 = s2 := by cases r2 <;> rfl
+      rw [this, h1, hmain]
+    · simp only [hf, Bool.false_eq_true, if_false, Nat.add_zero]; exact hmain
+  | _ => simp only [Res.isErr, Bool.false_and, Bool.false_eq_true, if_false, Nat.add_zero]; exact hmain
+
+/-! ## names that are no group names, `groups` that is no collection (the two `assert`s, the `for`) -/
+
+/-- **`assert step_group_name`**: the empty string is no group name. Running the group `''` raises
+    AssertionError before anything is looked up (whatever stands under `''` in the yaml) - an error of
+    the phase it occurs in like any other: -/
+theorem empty_group_name_raises (fuel : Nat) (prog : Program) (pipe : String) (raiseStop : Bool) (s : St) :
+    runStepGroup (fuel + 1) prog pipe "" raiseStop s = raiseNew s "AssertionError" "" :=
+  runStepGroup_empty_name fuel prog pipe raiseStop s
+
+/-- … as a requested group (`groups=['a', '']`, `jump: ''`, `call: {groups: ['a', '']}`): the groups before
+    it ran in order, nothing after it runs, the main phase ends with the AssertionError (so the failure
+    group runs and the caller receives it, by `runGroups_char`). -/
+theorem empty_group_name_in_groups (prog : Program) (pipe : String) (pre post : List String)
+    (fuel : Nat) (s s0 : St) (hpre : GroupsChain prog pipe (fuel + 2) pre s s0) (hlen : pre.length ≤ fuel) :
+    runGroupList (fuel + 2) prog pipe (pre ++ "" :: post) s = raiseNew s0 "AssertionError" "" := by
+  have h := runGroupList_stops_at_first_nonok prog pipe pre post "" (fuel + 2) s s0
+    (raiseNew s0 "AssertionError" "").1 (raiseNew s0 "AssertionError" "").2 hpre (by omega)
+    (by
+      obtain ⟨k, hk⟩ : ∃ k, fuel + 2 - pre.length - 1 = k + 1 := ⟨fuel - pre.length, by omega⟩
+      rw [hk, runStepGroup_empty_name])
+    (by simp [raiseNew])
+  exact h
+
+/-- a success group named `''` is "no success group" (`if success_group:`), a failure group named `''`
+    "no failure group" (`if failure_group:`): the `assert` is never reached for them. -/
+theorem empty_handler_names_mean_none (fuel : Nat) (prog : Program) (pipe : String) (groups : List String) (s : St) :
+    mainPhase fuel prog pipe groups (some "") s = mainPhase fuel prog pipe groups none s ∧
+    hasFailureGroup (some "") = false := by
+  constructor
+  · unfold mainPhase
+    generalize runGroupList fuel prog pipe groups s = p
+    obtain ⟨s1, r⟩ := p
+    cases r <;> rfl
+  · rfl
+
+/-- **`groups` that cannot be iterated** (`groups: 5`): no group runs; the `for` raises TypeError inside
+    the `try` of `run_step_groups`, so the failure group given (if any) runs once from there and decides
+    as for every other error - ended normally: the caller receives that TypeError; StopStepGroup: quiet
+    end; Stop / StopPipeline: that instruction. -/
+theorem groups_not_iterable (fuel : Nat) (prog : Program) (pi : PipeInst) (pd : PipeDef) (s s1 : St)
+    (hp : prog.find? pi.name = some pd) (hgb : pi.groupsBad = true)
+    (hprep : prepareContext pd pi { s with stack := pi.name :: s.stack } = (s1, .ok)) :
+    let e : ExcV := ⟨s1.nextExc, "TypeError", "~object is not iterable"⟩
+    let s1' := (raiseNew s1 "TypeError" "~object is not iterable").1
+    let pop : St × Res → St × Res := fun p => ({ p.1 with stack := p.1.stack.drop 1 }, p.2)
+    runPipeline (fuel + 1) prog pi s =
+      pop (if hasFailureGroup pi.failure then
+             match handlerOutcome e false (runFailureGroup fuel prog pi.name pi.failure s1') with
+             | (s2, .stopPipeline) => (s2, .ok)
+             | other => other
+           else (s1', .err e false)) := by
+  rw [runPipeline_groupsBad fuel prog pi pd s hp hgb]
+  simp only [hprep]
+  by_cases hf : hasFailureGroup pi.failure = true
+  · simp only [hf, if_true]
+    generalize runFailureGroup fuel prog pi.name pi.failure _ = q
+    obtain ⟨s2, r2⟩ := q
+    cases r2 <;> rfl
+  · simp only [hf]; rfl
+
 /-! ## what the caller of the pipeline gets -/
 
 /-- an error leaving `_run_pipeline` is the parser's error (after the failure group ran once) or the
     error `run_step_groups` ended with — the same exception object. -/
 theorem pipeline_err_is_original (fuel : Nat) (prog : Program) (pi : PipeInst) (pd : PipeDef) (s s' : St)
-    (e : ExcV) (h : Bool) (hp : prog.find? pi.name = some pd)
+    (e : ExcV) (h : Bool) (hp : prog.find? pi.name = some pd) (hgb : pi.groupsBad = false)
     (hr : runPipeline (fuel + 1) prog pi s = (s', .err e h)) :
     (∃ s1 s2, prepareContext pd pi { s with stack := pi.name :: s.stack } = (s1, .err e h) ∧
         (runFailureGroup fuel prog pi.name (effectiveGroups pi).2.2 s1 = (s2, .ok) ∨
@@ -267,7 +427,7 @@ theorem pipeline_err_is_original (fuel : Nat) (prog : Program) (pi : PipeInst) (
         runGroups fuel prog pi.name (effectiveGroups pi).1 (effectiveGroups pi).2.1 (effectiveGroups pi).2.2 s1
           = (s2, .err e h) ∧
         s' = { s2 with stack := s2.stack.drop 1 }) :=
-  runPipeline_err_origin fuel prog pi pd s s' e h hp hr
+  runPipeline_err_origin fuel prog pi pd s s' e h hp hgb hr
 
 /-- **What the API caller gets** (`Pipeline.run`): it returns normally (with the final context `s'.ctx`)
     iff the pipeline ended normally or with a Stop-family instruction; it raises `e` iff the pipeline
@@ -355,6 +515,42 @@ example :
       .err ⟨0, "pypyr.errors.PyModuleNotFoundError", "~module not found"⟩ false := by
   decide +kernel
 
+/-- `groups=['a', '', 'c']`: `a` ran, `''` is no group name - the AssertionError ends the main phase (`c` and
+    the success group do not run), the failure group runs once, the caller receives the AssertionError;
+    `groups: 5`: no group runs, the failure group that was given runs once, the caller receives the TypeError -/
+example :
+    (let r := runRoot 50 demoProg { name := "main", groups := some ["a", "", "c"], success := some "good",
+                                     failure := some "bad" } {}
+     r.2 = .err ⟨0, "AssertionError", ""⟩ false ∧ r.1.trace.map (·.tag) = ["a1", "a2", "f1", "f2"]) ∧
+    (let r := runRoot 50 demoProg { name := "main", groupsBad := true, success := some "c", failure := some "good" } {}
+     r.2 = .err ⟨0, "TypeError", "~object is not iterable"⟩ false ∧ r.1.trace.map (·.tag) = ["ok1"]) := by
+  decide +kernel
+
+/-- the hypotheses of `runSteps_stops_at_first_nonok_one_fuel` on group `b` of the demo at the one fuel 20:
+    `b1` ends normally, `b2` fails - so the list ends with that error for every budget ≥ 22. -/
+example :
+    let s : St := { stack := ["main"] }
+    (∃ s0, StepsChainAt demoProg "main" 20 [probe "b1"] s s0 ∧
+      (runStep 20 demoProg "main" (failing "b2" "E1") s0).2 = .err ⟨0, "E1", "boom b2"⟩ false) ∧
+    (runSteps 22 demoProg "main" ([probe "b1"] ++ failing "b2" "E1" :: [probe "b3"]) s).2 =
+      .err ⟨0, "E1", "boom b2"⟩ false := by
+  refine ⟨⟨(runStep 20 demoProg "main" (probe "b1") { stack := ["main"] }).1,
+    ⟨_, Prod.ext rfl (by decide +kernel : (runStep 20 demoProg "main" (probe "b1") { stack := ["main"] }).2 = .ok), rfl⟩,
+    ?_⟩, ?_⟩
+  · decide +kernel
+  · decide +kernel
+
+/-- `handler_runs_once_on_trace` on the demo, tag `f1` (the first step of the failure group `bad`): the main phase
+    emits none, one run of the handler exactly one - so the activation that fails shows `f1` once, the one that
+    does not fail not at all. -/
+example :
+    let s : St := { stack := ["main"] }
+    countTag "f1" (mainPhase 40 demoProg "main" ["a", "b", "c"] (some "good") s).1.trace = countTag "f1" s.trace ∧
+    countTag "f1" (runFailureGroup 40 demoProg "main" (some "bad") s).1.trace = countTag "f1" s.trace + 1 ∧
+    countTag "f1" (runGroups 41 demoProg "main" ["a", "b", "c"] (some "good") (some "bad") s).1.trace = 1 ∧
+    countTag "f1" (runGroups 41 demoProg "main" ["a", "c"] (some "good") (some "bad") s).1.trace = 0 := by
+  decide +kernel
+
 /-- the hypotheses of `runGroups_err_handler_done` hold on the first run: main phase error, handler named,
     handler ended "normally" although its own step failed -/
 example :
@@ -371,6 +567,50 @@ example :
     effectiveGroups { name := "p", groups := some ["g"] } = (["g"], none, none) ∧
     effectiveGroups { name := "p", groups := some [], failure := some "" } =
       (["steps"], some "on_success", some "on_failure") := by
+  decide +kernel
+
+/-! ## the harness's oracle is the model -/
+
+/-- **`floworacle.straight_oracle` = the model, for every straight-line pipeline.** The directed C01 / C02
+    families judge the implementation against a small Python oracle (`harness/floworacle.py: straight_oracle`);
+    `C01o.oracle` is that function transcribed (`Props/Lemmas/C01_Oracle.lean`), `C01o.renderProg` its
+    `render_straight`. For every list of groups of the seven step kinds (succeeds / fails / fails swallowed /
+    never runs in five spellings / the three stop instructions), every `groups`, `success`, `failure` argument
+    (requested names non-empty), every start state without `runErrors`, every fuel above a bound linear in the
+    input: the model's run ends, with exactly the oracle's probe events in order, exactly the oracle's number of
+    `runErrors` entries, and the oracle's outcome - error name and message, or success (Stop, StopPipeline,
+    StopStepGroup included). So what the families check the implementation against is not a second opinion:
+    it is the model the theorems of this file are about. -/
+theorem straight_oracle_is_the_model (gs : List (String × List C01o.SStep)) (req : Option (List String))
+    (succ fail : Option String) (s : St) (fuel : Nat)
+    (hre : Ctx.get? s.ctx "runErrors" = none)
+    (hreq : ∀ g ∈ (C01o.oDefault req succ fail).1, g ≠ "")
+    (hf : (C01o.oDefault req succ fail).1.length + C01o.maxLen gs + 7 ≤ fuel) :
+    let d := C01o.oDefault req succ fail
+    let o := C01o.oracle gs d.1 d.2.1 d.2.2 {}
+    ∃ s' r, runRoot fuel (C01o.renderProg gs) { name := "main", groups := req, success := succ, failure := fail } s = (s', r) ∧
+      s'.trace.map (·.tag) = s.trace.map (·.tag) ++ o.1.tags ∧
+      (C07.runErrorsOf s').length = o.1.nerr ∧
+      (match C01o.outcomeOf o.2 with
+       | some (n, m) => ∃ e h, r = .err e h ∧ e.name = n ∧ e.msg = m
+       | none => r = .ok) :=
+  C01o.straight_oracle_eq_model gs req succ fail s fuel hre hreq hf
+
+/-- the oracle's defaulting is `effectiveGroups` -/
+theorem oracle_defaulting (req : Option (List String)) (succ fail : Option String) :
+    effectiveGroups { name := "main", groups := req, success := succ, failure := fail } = C01o.oDefault req succ fail :=
+  C01o.oDefault_eq req succ fail
+
+/-- hypotheses satisfiable, and the statement evaluated on one case of `c01_family` (failure in `steps`, the
+    handler ends with StopStepGroup): the model's run = the oracle's answer -/
+example :
+    let gs : List (String × List C01o.SStep) :=
+      [("steps", [.ok "s0", .fail "s1" "ValueError" false, .ok "s2"]), ("on_success", [.ok "os"]),
+       ("on_failure", [.ok "h1", .stopGroup, .ok "h3"])]
+    let r := runRoot 20 (C01o.renderProg gs) { name := "main" } {}
+    C01o.oDefault none none none = (["steps"], some "on_success", some "on_failure") ∧
+    C01o.oracle gs ["steps"] (some "on_success") (some "on_failure") {} = (⟨["s0", "s1", "h1"], 1⟩, .ok) ∧
+    r.1.trace.map (·.tag) = ["s0", "s1", "h1"] ∧ r.2 = .ok ∧ (C07.runErrorsOf r.1).length = 1 := by
   decide +kernel
 
 end Pypyr.C01
